@@ -370,6 +370,8 @@ static int resp(unsigned long seedv, const char * tier, const char * outpath) {
     int c, q;
     rng = 0x9E3779B97F4A7C15ull ^ (seedv * 0x100000001B3ull);
     for (c = 0; c < 13; c++) { resp_case(f, codes[c], 0, "", 0); n++; }
+    /* every code around the description table, with and without a short text */
+    for (c = -900; c <= 40; c++) { resp_case(f, c, 0, "", 0); resp_case(f, c, 1, "t\"x", 3); n += 2; }
     /* every length around the boundary, quotes at every position relative to it */
     for (c = 0; c < (thorough ? 13 : 4); c++) {
         size_t dl = strlen(SCPI_ErrorTranslate((int16_t) codes[c]));
